@@ -493,3 +493,149 @@ func derive6Programs() []Program {
 		Harness: map[string][]byte{"zz_verif_harness.go": []byte(derive6Harness)},
 		Desc:    "derive: plain derive declared before a recursive one reaching the same nested type"}}
 }
+
+// seventh family: fields of DEFINED non-struct types (a defined map, slice, pointer and basic type) under
+// recursive=true: the instance is derived through the underlying type, so the clone is deep for each of them.
+const derive7Types = `package d7
+
+import (
+	"github.com/csgura/fp"
+	"github.com/csgura/fp/clone"
+	"github.com/csgura/fp/eq"
+)
+
+//go:generate gombok
+
+type Index map[string][]int
+
+type IDs []int
+
+type Count int
+
+type Cell struct {
+	V []int
+}
+
+type Ref *Cell
+
+type Holder struct {
+	Ix  Index
+	Ids IDs
+	N   Count
+	R   Ref
+}
+
+// @fp.Derive(recursive=true)
+var _ clone.Derives[fp.Clone[Holder]]
+
+type Keyed struct {
+	Ids IDs
+	N   Count
+}
+
+// @fp.Derive(recursive=true)
+var _ eq.Derives[fp.Eq[Keyed]]
+`
+
+const derive7Harness = `package d7
+
+import (
+	zz "scratchmod/zzverif"
+)
+
+func VH_c08_defined_container_types_clone() {
+	zz.Config("mapperm", 0)
+	x := Holder{N: Count(zz.Int("n"))}
+	if zz.Bool("ix") {
+		x.Ix = Index{zz.Str("k", 1): zz.SliceInt("ixv", 1, 1, 0)}
+	}
+	if zz.Bool("ids") {
+		x.Ids = IDs(zz.SliceInt("ids", 2, 0, 0))
+	}
+	if zz.Bool("r") {
+		x.R = &Cell{V: zz.SliceInt("cell", 1, 0, 0)}
+	}
+	c := CloneHolder().Clone(x)
+	zz.Assert(zz.DeepEq(x, c), "derived Clone[Holder] (fields of defined map/slice/pointer/basic types, recursive=true) is an equal copy")
+	zz.Assert(zz.Disjoint(x, c), "derived Clone[Holder] shares no mutable storage through a field of a defined map/slice/pointer type")
+}
+
+func VH_c08_defined_types_eq() {
+	a := Keyed{Ids: IDs(zz.SliceInt("a", 2, 0, 0)), N: Count(zz.Int("an"))}
+	b := Keyed{Ids: IDs(zz.SliceInt("b", 2, 0, 0)), N: Count(zz.Int("bn"))}
+	want := a.N == b.N && len(a.Ids) == len(b.Ids)
+	for i := range a.Ids {
+		want = want && a.Ids[i] == b.Ids[i]
+	}
+	zz.Assert(EqKeyed().Eqv(a, b) == want, "derived Eq[Keyed] is the conjunction of the field equalities through defined slice/basic types")
+}
+`
+
+func derive7Programs() []Program {
+	return []Program{{Pkg: "d7", Files: map[string][]byte{"types.go": []byte(derive7Types)},
+		Harness: map[string][]byte{"zz_verif_harness.go": []byte(derive7Harness)},
+		Desc:    "derive: fields of defined map/slice/pointer/basic types under recursive=true"}}
+}
+
+// eighth family: the type's own package declares an instance FUNCTION for a GENERIC type (EqBox[T](Eq[T])); a
+// struct in another package has a field of an instantiation of it. The own-package instance takes precedence and
+// is called with the instance of the type argument.
+const deriveQ2 = `package q2
+
+import (
+	"github.com/csgura/fp"
+	"github.com/csgura/fp/eq"
+)
+
+type Box[T any] struct {
+	V   T
+	Tag int
+}
+
+// instance declared in the type's own package: the tag does not take part in equality
+func EqBox[T any](eqT fp.Eq[T]) fp.Eq[Box[T]] {
+	return eq.New(func(a, b Box[T]) bool { return eqT.Eqv(a.V, b.V) })
+}
+`
+
+const derive8Types = `package d8
+
+import (
+	"github.com/csgura/fp"
+	"github.com/csgura/fp/eq"
+
+	"scratchmod/q2"
+)
+
+//go:generate gombok
+
+type Crate struct {
+	b q2.Box[int]
+	n int
+}
+
+// @fp.Derive
+var _ eq.Derives[fp.Eq[Crate]]
+`
+
+const derive8Harness = `package d8
+
+import (
+	"scratchmod/q2"
+	zz "scratchmod/zzverif"
+)
+
+func VH_c08_own_package_generic_instance() {
+	a := Crate{b: q2.Box[int]{V: zz.Int("a.v"), Tag: zz.Int("a.tag")}, n: zz.Int("a.n")}
+	b := Crate{b: q2.Box[int]{V: zz.Int("b.v"), Tag: zz.Int("b.tag")}, n: zz.Int("b.n")}
+	zz.Assert(EqCrate().Eqv(a, b) == (a.b.V == b.b.V && a.n == b.n), "derived Eq[Crate] uses the generic instance function declared in the field type's own package")
+}
+`
+
+func derive8Programs() []Program {
+	return []Program{
+		{Pkg: "q2", Files: map[string][]byte{"box.go": []byte(deriveQ2)}, NoGombok: true, Desc: "support package with a generic type and its own instance function"},
+		{Pkg: "d8", Files: map[string][]byte{"types.go": []byte(derive8Types)},
+			Harness: map[string][]byte{"zz_verif_harness.go": []byte(derive8Harness)},
+			Desc:    "derive: instance function of a generic type declared in the type's own package"}}
+}
